@@ -344,6 +344,14 @@ func exactSign(a, b, c []float64) int {
 func prop(cs Case) error {
 	a, b, c := model.Floats(cs.A), model.Floats(cs.B), model.Floats(cs.C)
 	want := exactSign(a, b, c)
+	// the package's other exported function runs first (whatever it returns, or panics
+	// with, on these points): it shares nothing with the predicate that could change an
+	// answer
+	_ = run.Safe(func() error {
+		_ = bigxy.Intersection(geom.Coord{a[0], a[1]}, geom.Coord{b[0], b[1]}, geom.Coord{c[0], c[1]}, geom.Coord{a[1], b[0]})
+		_ = bigxy.Intersection(geom.Coord{0.1, 0.7}, geom.Coord{3.3, -1.9}, geom.Coord{-2.5, 0.3}, geom.Coord{4.7, 1.1})
+		return nil
+	})
 	type fn struct {
 		name string
 		f    func(x, y, z geom.Coord) orientation.Type
